@@ -438,3 +438,38 @@ def case_bu_dense(rng):
         for _ in range(rng.randint(0, 2)): lines.append(f"req {rng.randint(1, n)}")
         lines += ["endsession", "session", "reqknown", "endsession", "cleanknown"]
     return p.lines() + lines
+
+
+def case_erosion(rng):
+    """C05: chains reader -> mid -> ... -> generator in which an intermediate task drops its require (same output) so that
+    the reader keeps a read of a generated resource without a path to the generator (finding K4), followed by builds
+    that re-execute the generator, the reader or the intermediate task in various orders and modes."""
+    k = rng.randint(1, 3)                      # number of intermediate tasks
+    gen_t = k + 2
+    g = rng.choice([10, 110])
+    sw = [rng.choice([1, 101]) for _ in range(k)]      # switch resource of each intermediate task
+    gin = rng.choice([5, 105])                  # input of the generator
+    lines = []
+    # reader: requires mid_1 then reads g
+    lines.append(f"task 1 req 2 {rng.choice([0, 4])} read {g} 0 ret + v 0 v 1")
+    for i in range(k):
+        t, nxt = i + 2, i + 3
+        # intermediate task: requires the next one only while its switch is 0; constant output
+        lines.append(f"task {t} read {sw[i]} 0 if = v 0 k 0 req {nxt} 4 ret k 7 ret k 7")
+    wk = rng.choice(["write", "write", "wrote"])
+    lines.append(f"task {gen_t} read {gin} 0 {wk} {g} 0 some + v 0 k 1 ret k 1")
+    hist = [f"set {s} 0" for s in sorted(set(sw))] + [f"set {gin} {rng.randint(0, 3)}"]
+    hist += ["session", "req 1", "endsession", "cleannodes"]
+    for _ in range(rng.randint(2, 5)):
+        r = rng.random()
+        changed = []
+        if r < 0.5:
+            s = rng.choice(sw); hist.append(f"set {s} {rng.randint(0, 1)}"); changed.append(s)
+        if r > 0.3:
+            hist.append(f"set {gin} {rng.randint(0, 5)}"); changed.append(gin)
+        hist.append("session")
+        if rng.random() < 0.4 and changed: hist.append("bu " + " ".join(map(str, changed)))
+        for _ in range(rng.randint(1, 2)):
+            hist.append(f"req {rng.choice([1, 1, gen_t, rng.randint(2, gen_t)])}")
+        hist += ["endsession", "cleannodes"]
+    return lines + hist, dict(uses_wrote=(wk == "wrote"), erosion=True)
